@@ -104,6 +104,9 @@ def _calls(op, st, dtype, upper):
             return [("torch.%s(op, c)" % f, getattr(torch, f)(op, c)), ("op.%s(c)" % f, getattr(op, f)(c))]
         if f == "matmul":
             return [("torch.matmul(op, X)", torch.matmul(op, X)), ("op.matmul(X)", op.matmul(X))]
+        if f == "isclose":
+            return [("torch.isclose(op, X, 0.0, 0.5)", torch.isclose(op, X, 0.0, 0.5).to(dtype)),
+                    ("torch.isclose(op, X, rtol=0.0, atol=0.5)", torch.isclose(op, X, rtol=0.0, atol=0.5).to(dtype))]
         if f == "diagonal":
             return [("torch.diagonal(op, dim1=-2, dim2=-1)", torch.diagonal(op, dim1=-2, dim2=-1)), ("op.diagonal()", op.diagonal())]
         if f == "clone":
@@ -125,6 +128,9 @@ def _calls(op, st, dtype, upper):
             return [("torch.squeeze(op, 0)", torch.squeeze(op, 0)), ("op.squeeze(0)", op.squeeze(0))]
     if kind == "second":
         c = X
+        if f == "torch.isclose":
+            return [("torch.isclose(X, op, 0.0, 0.5)", torch.isclose(X, op, 0.0, 0.5).to(dtype)),
+                    ("torch.isclose(X, op, rtol=0.0, atol=0.5)", torch.isclose(X, op, rtol=0.0, atol=0.5).to(dtype))]
         if f == "torch.add":
             return [("torch.add(X, op)", torch.add(X, op))]
         if f == "Tensor.add":
@@ -216,6 +222,32 @@ def _replay(beh):
     return fails
 
 
+def _generic_unknown(name, is_first, beh):
+    """an entry registered in the live table that the spec does not list: torch.<name>(X, op) / (op, X) must equal torch.<name> on the dense matrix"""
+    dtype = torch.float64
+    op = bind.build(beh["term"], dtype)
+    A = bind.tensor(beh["dense"], dtype)
+    X = A + 1.0
+    f = getattr(torch, name, None)
+    if f is None:
+        return "gap"
+    try:
+        ref = f(A, X) if is_first else f(X, A)
+    except Exception:
+        return "gap"
+    try:
+        got = numeric.dense(f(op, X) if is_first else f(X, op)).to(dtype)
+    except Exception as e:  # noqa
+        return None if isinstance(e, NotImplementedError) else "torch.%s raised %s" % (name, type(e).__name__)
+    if got.shape == ref.shape:
+        mask = torch.isfinite(ref)
+        got, ref = torch.where(mask, got, torch.zeros_like(got)), torch.where(mask, ref, torch.zeros_like(ref))
+    if got.shape != ref.shape or not numeric.rel_err(got, ref) <= 1e-8:
+        return "torch.%s(%s) with the operator as %s operand differs from torch.%s on the dense matrix (relative error %.3g)" % (
+            name, "op, X" if is_first else "X, op", "first" if is_first else "second", name, numeric.rel_err(got, ref) if got.shape == ref.shape else float("inf"))
+    return None
+
+
 def run(tier, seed):
     res = core.Result(PROP, tier, seed)
     first, second = live_tables()
@@ -223,13 +255,23 @@ def run(tier, seed):
     res.add_tlc("MC_C15", r)
     behs = _group(r["out"])
     # table checks (TLC evaluates them as ASSUME-like constants; evaluated here from the same sets for the verdict text)
-    rt = tlc.run("MC_C15", "c15.table", constants=dict(Tier=tier, Seed=seed, ValSeed=seed, Part=99, NParts=100, LiveFirst=first, LiveSecond=second),
+    rt = tlc.run("MC_C15", "c15.table", constants=dict(Tier=tier, Seed=seed, ValSeed=seed, Part=0, NParts=64, LiveFirst=first, LiveSecond=second),
                  invariants=["TableComplete", "TableKnown"], workers=2, timeout=600, heap="2g")
     if rt["violated"] == "TableComplete":
         res.violation("C15|registration-table|missing", "a function named by the property is no longer registered: live first-arg table %s, second-arg %s"
                       % (sorted(first), sorted(second)), dict(first=sorted(first), second=sorted(second)))
     elif rt["violated"] == "TableKnown":
-        raise core.MachineryError("coverage gap: the live dispatch table has entries unknown to the specification: %s / %s" % (sorted(first), sorted(second)))
+        # a registration the specification does not know: decide it generically against torch on the dense matrix
+        spec_first = {"abs", "add", "linalg_cholesky", "clone", "diagonal", "div", "linalg_eigh", "linalg_eigvalsh", "exp", "inverse", "isclose", "log",
+                      "logdet", "matmul", "mul", "numel", "permute", "prod", "linalg_solve", "linalg_solve_triangular", "sqrt", "squeeze", "sub",
+                      "sum", "linalg_svd", "transpose", "unsqueeze"}
+        spec_second = {"torch.add", "torch.isclose", "torch.mul", "torch.matmul", "Tensor.matmul", "Tensor.mul", "Tensor.add", "Tensor.sub", "torch.sub"}
+        for name in sorted((first - spec_first) | {n.split(".", 1)[1] for n in (second - spec_second)}):
+            msg = _generic_unknown(name, name in first - spec_first, behs[0])
+            if msg == "gap":
+                raise core.MachineryError("coverage gap: live dispatch entry %r is unknown to the specification and cannot be decided generically" % name)
+            if msg:
+                res.violation("C15|%s|newly-registered|wrong-value" % name, msg, dict(name=name))
     b0 = copy.deepcopy(behs[0])
     st = next(s for s in b0["steps"] if s["func"] == "matmul" and s["kind"] == "first")
     st["expect"]["data"][0] += 1
